@@ -343,8 +343,8 @@ class SequOOLMon(Ledger):
         if X is root:
             if not self.exhausted:
                 self.exhausted = True
+                self.exhausted_at = ctx.round  # completed rounds when the first post-exhaustion pull happened
                 self.obs["runs_exhausted_within_budget"] += 1
-                self.pending_rec = True
             return
         if self.exhausted:
             self.v("C12:search_evaluation_after_the_schedule_was_exhausted", depth=X.get_depth())
@@ -366,12 +366,22 @@ class SequOOLMon(Ledger):
         self._rec(p)
 
     def _rec(self, p):
-        if self.exhausted:
-            if self.rec_at_exhaustion is None:
+        if not self.exhausted:
+            self.last_rec = (p, self.ctx.round)
+            return
+        if self.rec_at_exhaustion is None:
+            # the recommendation at the moment the schedule ran out: the last one seen before the first
+            # post-exhaustion pull if the run was queried then, else the first one seen afterwards
+            lr = getattr(self, "last_rec", None)
+            if lr is not None and lr[1] == self.exhausted_at:
+                self.rec_at_exhaustion = lr[0]
+                self.obs["recommendation_known_from_before_exhaustion"] += 1
+            else:
                 self.rec_at_exhaustion = p
-            elif p is not self.rec_at_exhaustion:
-                self.v("C12:recommendation_changed_after_exhaustion")
-            self.obs["post_exhaustion_recommendations_checked"] += 1
+        if p is not self.rec_at_exhaustion:
+            self.v("C12:recommendation_changed_after_exhaustion", round=self.ctx.round,
+                   exhausted_at=self.exhausted_at)
+        self.obs["post_exhaustion_recommendations_checked"] += 1
 
     def finish(self, ctx):
         self.obs["max_open_depth"] = max(self.opens or [0])
